@@ -351,7 +351,8 @@ func (ca *CertificateAuthority) upload(ctx context.Context, manifest *cpb.GCECer
 	entry := getEntry(manifest, keyVersionName)
 	if entry != nil {
 		name = entry.ObjectPath
-		if output.AllowRecoverableError(ctx) {
+		// Keep going past an object that may not be replaced; with overwrite permission it is replaced.
+		if output.AllowRecoverableError(ctx) && !output.AllowOverwrite(ctx) {
 			return &overwritten{name: name}, nil
 		}
 		output.Warningf(ctx, "key version exists in manifest %v -> %v", keyVersionName, entry.GetObjectPath())
